@@ -30,8 +30,10 @@ Doc == JsonDeserialize(IOEnv.CASES)
 Case(c) == Doc.cases[c]
 
 VARIABLES c, stack, envs, heap, out, steps, status, nser,
-          sinks        \* C10: pairs <<source statement, sink statement>> observed at the designated sink argument
-vars == <<c, stack, envs, heap, out, steps, status, nser, sinks>>
+          sinks,       \* C10: pairs <<source statement, sink statement>> observed at the designated sink argument
+          calls,       \* C07: triples <<calling method, call statement, called method>> of every call that happened
+          defs         \* C08/C09: definition events [s (statement), n (name), v (snapshot of the value)] (only when Case(c).check = "values")
+vars == <<c, stack, envs, heap, out, steps, status, nser, sinks, calls, defs>>
 
 Rows == Case(c).rows
 IsMarker(r) == r.op \in {"block_start", "block_end"}
@@ -115,13 +117,22 @@ Declare(es, ser, name) == IF name \in DOMAIN es[ser] THEN es ELSE [es EXCEPT ![s
 
 (* ---------------- heap ---------------- *)
 NoFields == [x \in {} |-> VNone]
-Obj(kind, cls) == [kind |-> kind, cls |-> cls, fields |-> NoFields, elems |-> << >>]
+Obj(kind, cls, site) == [kind |-> kind, cls |-> cls, site |-> site, fields |-> NoFields, elems |-> << >>]
 KeyOf(v) == IF v.t = "str" THEN "s:" \o v.s ELSE IF IsNum(v) THEN "i:" \o ToString(AsInt(v)) ELSE "?"
 
 (* ---------------- classes and methods ---------------- *)
 MethodsOf(cls) == LET r == RowOf(cls) IN IF r.methods = 0 THEN << >> ELSE Children(r.methods)
-FindMethod(cls, name) == LET ms == SelectSeq(MethodsOf(cls), LAMBDA r : r.op = "method_decl" /\ r.name = name)
-                         IN IF ms = << >> THEN 0 ELSE ms[1].id
+OwnMethod(cls, name) == LET ms == SelectSeq(MethodsOf(cls), LAMBDA r : r.op = "method_decl" /\ r.name = name)
+                        IN IF ms = << >> THEN 0 ELSE ms[1].id
+ClassNamed(n) == LET cs == SelectSeq(Rows, LAMBDA r : r.op = "class_decl" /\ r.name = n) IN IF cs = << >> THEN 0 ELSE cs[1].id
+RECURSIVE FindMethodIn(_, _, _)
+FindMethodIn(cls, name, fuel) ==
+  IF cls = 0 \/ fuel = 0 THEN 0
+  ELSE IF OwnMethod(cls, name) # 0 THEN OwnMethod(cls, name)
+  ELSE LET sup == RowOf(cls).supers
+           found == SelectSeq([j \in 1..Len(sup) |-> FindMethodIn(ClassNamed(sup[j]), name, fuel - 1)], LAMBDA x : x # 0)
+       IN IF found = << >> THEN 0 ELSE found[1]
+FindMethod(cls, name) == FindMethodIn(cls, name, 6)
 CtorOf(cls) == FindMethod(cls, "__init__")
 Params(m) == LET r == RowOf(m) IN IF r.parameters = 0 THEN << >>
              ELSE SelectSeq(Children(r.parameters), LAMBDA p : p.op = "parameter_decl")
@@ -140,39 +151,71 @@ BindArgs(m, pos, named) ==
      IN IF ps[j].id \in ToSet(Case(c).param_sources) /\ v.t # "undef" THEN AddTags(v, {ps[j].id}) ELSE v]
 
 NewAct(m, bound, lexser, target, self, ser) ==
-  [m |-> m, kont |-> <<Frame(RowOf(m).body, "plain")>>, lex |-> lexser, target |-> target, self |-> self, ser |-> ser]
+  [m |-> m, kont |-> <<Frame(RowOf(m).body, "plain")>>, lex |-> lexser, target |-> target, self |-> self, ser |-> ser, site |-> 0]
+AtSite(act, stmt) == [act EXCEPT !.site = stmt]
 EnvFor(bound, lexser, self) ==
   (("lex__" :> VInt(lexser)) @@ ("%this" :> self) @@ bound)
 
 (* ---------------- the transition relation ---------------- *)
 Init == /\ c \in 1..Len(Doc.cases)
-        /\ heap = << >> /\ out = << >> /\ steps = 0 /\ status = "run" /\ nser = 1 /\ sinks = {}
+        /\ heap = << >> /\ out = << >> /\ steps = 0 /\ status = "run" /\ nser = 1 /\ sinks = {} /\ calls = {} /\ defs = {}
         /\ envs = [s \in {0} |-> ("lex__" :> VInt(0)) @@ [n \in {} |-> VNone]]
         /\ stack = << >>
 
-Fail(msg) == /\ status' = "stuck:" \o msg /\ UNCHANGED <<c, stack, envs, heap, out, nser, sinks>> /\ steps' = steps + 1
+Fail(msg) == /\ status' = "stuck:" \o msg /\ UNCHANGED <<c, stack, envs, heap, out, nser, sinks, calls, defs>> /\ steps' = steps + 1
 
-Go(st2, es2, hp2, out2) == /\ stack' = st2 /\ envs' = es2 /\ heap' = hp2 /\ out' = out2
-                           /\ steps' = steps + 1 /\ UNCHANGED <<c, status, nser, sinks>>
+(* ---------------- definition events (C08/C09) ---------------- *)
+(* a snapshot of a value against a heap: primitives by value, functions and classes by declaration, objects by allocation
+   site with their fields and elements snapshotted one level deeper (two levels in all) *)
+NoSnap == [t |-> "", i |-> 0, s |-> "", site |-> 0, kind |-> "", fields |-> {}, elems |-> << >>]
+RECURSIVE Snap(_, _, _)
+Snap(v, hp, d) ==
+  CASE v.t = "int"  -> [NoSnap EXCEPT !.t = "int", !.i = v.i]
+    [] v.t = "str"  -> [NoSnap EXCEPT !.t = "str", !.s = v.s]
+    [] v.t = "bool" -> [NoSnap EXCEPT !.t = "bool", !.i = IF v.b THEN 1 ELSE 0]
+    [] v.t = "none" -> [NoSnap EXCEPT !.t = "none"]
+    [] v.t \in {"fun", "bound"} -> [NoSnap EXCEPT !.t = "fun", !.i = v.i]
+    [] v.t = "cls"  -> [NoSnap EXCEPT !.t = "cls", !.i = v.i]
+    [] v.t = "ref"  -> LET o == hp[v.i] IN
+                       IF d = 0 THEN [NoSnap EXCEPT !.t = "ref", !.site = o.site, !.kind = o.kind]
+                       ELSE [NoSnap EXCEPT !.t = "ref", !.site = o.site, !.kind = o.kind,
+                                           !.fields = {<<f, Snap(o.fields[f], hp, d - 1)>> : f \in DOMAIN o.fields},
+                                           !.elems = [j \in 1..Len(o.elems) |-> Snap(o.elems[j], hp, d - 1)]]
+    [] OTHER -> [NoSnap EXCEPT !.t = v.t]
+Recording == Case(c).check = "values"
+Def(stmt, name, v, hp) == IF Recording /\ name # "" THEN {[s |-> stmt, n |-> name, v |-> Snap(v, hp, 2)]} ELSE {}
+
+GoD(st2, es2, hp2, out2, D) == /\ stack' = st2 /\ envs' = es2 /\ heap' = hp2 /\ out' = out2 /\ defs' = defs \cup D
+                               /\ steps' = steps + 1 /\ UNCHANGED <<c, status, nser, sinks, calls>>
+Go(st2, es2, hp2, out2) == GoD(st2, es2, hp2, out2, {})
 GoK(k2, es2, hp2, out2) == Go(WithKont(k2), es2, hp2, out2)
+GoKD(k2, es2, hp2, out2, D) == GoD(WithKont(k2), es2, hp2, out2, D)
 Next1(es2) == GoK(AdvK(Kont), es2, heap, out)
+(* the common case: the current row defines `name` with value v *)
+Define(name, v) == GoKD(AdvK(Kont), SetVar(envs, Act.ser, name, v), heap, out, Def(Cur.id, name, v, heap))
 
 (* unit start: bind top-level methods/classes/builtins in the unit scope, run class static initialisers of
    top-level classes lazily (at first start), then run %unit_init *)
 TopDecls == SelectSeq(Rows, LAMBDA r : r.parent = 0 /\ ~IsMarker(r))
-Builtins == {"print", "range", "len", "out", "source", "sink", "source2", "sink2"}
+Builtins == {"print", "range", "len", "out", "source", "sink", "source2", "sink2", "choice"}
 UnitScope ==
   \* every method is callable by its name (static methods of Java classes included); top-level classes by theirs
   LET named == {r \in ToSet(TopDecls) : r.op = "class_decl"}
                \cup {r \in ToSet(Rows) : r.op = "method_decl" /\ r.name \notin {"%unit_init", "%class_sinit", "__init__"}} IN
-  [n \in Builtins \cup {r.name : r \in named} \cup {"lex__"} |->
+  \* `from m import f as g` makes g another name of f (imports are top-level declarations, not executed rows)
+  LET aliases == {r \in ToSet(TopDecls) : r.op = "from_import_stmt" /\ r.alias # "" /\ \E x \in named : x.name = r.name}
+      valueOf(n) == IF \E r \in named : r.name = n
+                    THEN LET r == CHOOSE x \in named : x.name = n IN IF r.op = "method_decl" THEN VFun(r.id, 0) ELSE VCls(r.id)
+                    ELSE VBuiltin(n)
+  IN
+  [n \in Builtins \cup {r.name : r \in named} \cup {r.alias : r \in aliases} \cup {"lex__"} |->
      IF n = "lex__" THEN VInt(0)
-     ELSE IF \E r \in named : r.name = n
-          THEN LET r == CHOOSE x \in named : x.name = n IN IF r.op = "method_decl" THEN VFun(r.id, 0) ELSE VCls(r.id)
-          ELSE VBuiltin(n)]
+     ELSE IF \E r \in aliases : r.alias = n THEN valueOf((CHOOSE r \in aliases : r.alias = n).name)
+     ELSE valueOf(n)]
 StartName == IF Case(c).start = "" THEN "%unit_init" ELSE Case(c).start
-UnitInit == CHOOSE r \in ToSet(Rows) : r.op = "method_decl" /\ r.name = StartName
-HasUnitInit == \E r \in ToSet(Rows) : r.op = "method_decl" /\ r.name = StartName
+StartId == IF "start_id" \in DOMAIN Case(c) THEN Case(c).start_id ELSE 0
+UnitInit == IF StartId # 0 THEN RowOf(StartId) ELSE CHOOSE r \in ToSet(Rows) : r.op = "method_decl" /\ r.name = StartName
+HasUnitInit == StartId # 0 \/ \E r \in ToSet(Rows) : r.op = "method_decl" /\ r.name = StartName
 TopClasses == SelectSeq(TopDecls, LAMBDA r : r.op = "class_decl")
 StaticInits == LET f(r) == FindMethod(r.id, "%class_sinit") IN
                SelectSeq([j \in 1..Len(TopClasses) |-> [cls |-> TopClasses[j].id, m |-> f(TopClasses[j])]], LAMBDA x : x.m # 0)
@@ -181,7 +224,7 @@ StaticInits == LET f(r) == FindMethod(r.id, "%class_sinit") IN
 Start ==
   /\ stack = << >> /\ status = "run" /\ steps = 0
   /\ LET cls == TopClasses
-         hp == [j \in 1..Len(cls) |-> Obj("class", cls[j].id)]
+         hp == [j \in 1..Len(cls) |-> Obj("class", cls[j].id, cls[j].id)]
          scope == UnitScope
          si == StaticInits
          acts0 == IF HasUnitInit THEN <<NewAct(UnitInit.id, << >>, 0, "", VNone, 0)>> ELSE << >>
@@ -192,7 +235,7 @@ Start ==
         /\ envs' = [s \in 0..Len(si) |-> IF s = 0 THEN scope
                                         ELSE ("lex__" :> VInt(0)) @@ ("%class" :> acts[Len(acts0) + s].self) @@ ("%this" :> acts[Len(acts0) + s].self)]
         /\ stack' = acts /\ nser' = Len(si) + 1
-        /\ steps' = 1 /\ UNCHANGED <<c, out, status, sinks>>
+        /\ steps' = 1 /\ UNCHANGED <<c, out, status, sinks, calls, defs>>
 
 ClassRef(clsid) == LET cs == TopClasses IN
                    IF \E k \in 1..Len(cs) : cs[k].id = clsid THEN VRef(CHOOSE k \in 1..Len(cs) : cs[k].id = clsid) ELSE VNone
@@ -200,11 +243,11 @@ ClassRef(clsid) == LET cs == TopClasses IN
 (* return: pop the activation, write the target of the calling row *)
 DoReturn(v) ==
   IF Len(stack) = 1
-  THEN /\ stack' = << >> /\ status' = "done" /\ steps' = steps + 1 /\ UNCHANGED <<c, envs, heap, out, nser, sinks>>
+  THEN /\ stack' = << >> /\ status' = "done" /\ steps' = steps + 1 /\ UNCHANGED <<c, envs, heap, out, nser, sinks, calls, defs>>
   ELSE LET caller == stack[Len(stack) - 1]
            st2 == SubSeq(stack, 1, Len(stack) - 1)
            es2 == IF Act.target = "" THEN envs ELSE SetVar(envs, caller.ser, Act.target, v)
-       IN Go(st2, es2, heap, out)
+       IN GoD(st2, es2, heap, out, IF Act.target = "" THEN {} ELSE Def(Act.site, Act.target, v, heap))
 
 PopFrame == /\ Len(Kont) > 1 /\ AtEnd /\ GoK(SubSeq(Kont, 1, Len(Kont) - 1), envs, heap, out)
 FallOff  == /\ Len(Kont) = 1 /\ AtEnd
@@ -245,8 +288,8 @@ Assign ==
               ELSE AddTags(v0, a.tg \cup (IF Cur.operand2_tok.k = "empty" THEN {} ELSE Val(Cur.operand2_tok).tg))
      IN IF v.t = "undef" THEN Fail("assign_" \o ToString(Cur.id))
         ELSE IF v.t = "overflow" \/ (v.t = "int" /\ Abs(v.i) >= Limit)
-        THEN /\ status' = "skip:overflow" /\ steps' = steps + 1 /\ UNCHANGED <<c, stack, envs, heap, out, nser, sinks>>
-        ELSE Next1(SetVar(envs, Act.ser, Cur.target, v))
+        THEN /\ status' = "skip:overflow" /\ steps' = steps + 1 /\ UNCHANGED <<c, stack, envs, heap, out, nser, sinks, calls, defs>>
+        ELSE Define(Cur.target, v)
 
 Decl == /\ Cur.op \in {"variable_decl", "global_stmt", "nonlocal_stmt", "pass_stmt", "parameter_decl", "import_stmt", "from_import_stmt"}
         /\ Next1(IF Cur.op = "variable_decl" THEN Declare(envs, Act.ser, Cur.name) ELSE envs)
@@ -303,25 +346,32 @@ Return == /\ Cur.op = "return_stmt"
              IF v.t = "undef" THEN Fail("return_" \o ToString(Cur.id)) ELSE DoReturn(v)
 
 (* ---- calls ---- *)
+(* the parameters of an activation are definitions of their parameter_decl rows *)
+ParamDefs(m, bound, hp) == LET ps == Params(m) IN
+  UNION {IF ps[j].name \in DOMAIN bound /\ bound[ps[j].name].t # "undef" THEN Def(ps[j].id, ps[j].name, bound[ps[j].name], hp) ELSE {} : j \in 1..Len(ps)}
 Enter(m, lexser, bound, target, self) ==
   LET ser == nser
       callerAdv == WithKont(AdvK(Kont))
-  IN /\ stack' = Append(callerAdv, NewAct(m, bound, lexser, target, self, ser))
+  IN /\ stack' = Append(callerAdv, AtSite(NewAct(m, bound, lexser, target, self, ser), Cur.id))
      /\ envs' = (ser :> EnvFor(bound, lexser, self)) @@ envs
+     /\ calls' = calls \cup {<<Act.m, Cur.id, m>>}
+     /\ defs' = defs \cup ParamDefs(m, bound, heap)
      /\ nser' = nser + 1 /\ steps' = steps + 1 /\ UNCHANGED <<c, heap, out, status, sinks>>
 
 CallValue(f, pos, named, target) ==
   CASE f.t = "fun" -> Enter(f.i, f.env, BindArgs(f.i, pos, named), target, VNone)
     [] f.t = "bound" -> Enter(f.i, f.env, BindArgs(f.i, pos, named), target, f.self)
     [] f.t = "cls" ->
-         LET hp2 == Append(heap, Obj("object", f.i))
+         LET hp2 == Append(heap, Obj("object", f.i, Cur.id))
              self == VRef(Len(hp2))
              ctor == CtorOf(f.i)
          IN IF ctor = 0
-            THEN GoK(AdvK(Kont), SetVar(envs, Act.ser, target, self), hp2, out)
+            THEN GoKD(AdvK(Kont), SetVar(envs, Act.ser, target, self), hp2, out, Def(Cur.id, target, self, hp2))
             ELSE /\ heap' = hp2
-                 /\ stack' = Append(WithKont(AdvK(Kont)), NewAct(ctor, << >>, 0, target, self, nser))
+                 /\ stack' = Append(WithKont(AdvK(Kont)), AtSite(NewAct(ctor, << >>, 0, target, self, nser), Cur.id))
                  /\ envs' = (nser :> EnvFor(BindArgs(ctor, pos, named), 0, self)) @@ envs
+                 /\ calls' = calls \cup {<<Act.m, Cur.id, ctor>>}
+                 /\ defs' = defs \cup ParamDefs(ctor, BindArgs(ctor, pos, named), hp2)
                  /\ nser' = nser + 1 /\ steps' = steps + 1 /\ UNCHANGED <<c, out, status, sinks>>
     [] f.t = "builtin" ->
          CASE f.s \in {"print", "out"} -> GoK(AdvK(Kont), IF target = "" THEN envs ELSE SetVar(envs, Act.ser, target, VNone), heap,
@@ -337,7 +387,7 @@ CallValue(f, pos, named, target) ==
                 LET lo == IF Len(pos) = 1 THEN 0 ELSE AsInt(Val(pos[1]))
                     hi == IF Len(pos) = 1 THEN AsInt(Val(pos[1])) ELSE AsInt(Val(pos[2]))
                     n  == IF hi > lo THEN hi - lo ELSE 0
-                    hp2 == Append(heap, [Obj("array", 0) EXCEPT !.elems = [j \in 1..n |-> VInt(lo + j - 1)]])
+                    hp2 == Append(heap, [Obj("array", 0, Cur.id) EXCEPT !.elems = [j \in 1..n |-> VInt(lo + j - 1)]])
                 IN GoK(AdvK(Kont), SetVar(envs, Act.ser, target, VRef(Len(hp2))), hp2, out)
            \* C10: a configured source call yields a value tagged with the call statement; a configured sink call records the
            \* tags that reach its designated argument (argument 0)
@@ -348,6 +398,7 @@ CallValue(f, pos, named, target) ==
                 /\ envs' = IF target = "" THEN envs ELSE SetVar(envs, Act.ser, target, VNone)
                 /\ sinks' = sinks \cup (IF Len(pos) = 0 THEN {} ELSE {<<s, Cur.id>> : s \in Val(pos[1]).tg})
                 /\ UNCHANGED <<c, status, nser>>
+           [] f.s = "choice" -> \E b \in BOOLEAN : GoK(AdvK(Kont), SetVar(envs, Act.ser, target, VBool(b)), heap, out)
            [] OTHER -> Fail("builtin_" \o f.s)
     [] OTHER -> Fail("call_of_non_callable_" \o ToString(Cur.id))
 
@@ -381,11 +432,11 @@ ObjectCall == /\ Cur.op = "object_call_stmt"
 
 (* ---- data structures ---- *)
 NewArray == /\ Cur.op = "new_array"
-            /\ LET hp2 == Append(heap, Obj(IF Cur.is_tuple THEN "tuple" ELSE "array", 0)) IN
-               GoK(AdvK(Kont), SetVar(envs, Act.ser, Cur.target, VRef(Len(hp2))), hp2, out)
+            /\ LET hp2 == Append(heap, Obj(IF Cur.is_tuple THEN "tuple" ELSE "array", 0, Cur.id)) IN
+               GoKD(AdvK(Kont), SetVar(envs, Act.ser, Cur.target, VRef(Len(hp2))), hp2, out, Def(Cur.id, Cur.target, VRef(Len(hp2)), hp2))
 NewRecord == /\ Cur.op = "new_record"
-             /\ LET hp2 == Append(heap, Obj("record", 0)) IN
-                GoK(AdvK(Kont), SetVar(envs, Act.ser, Cur.target, VRef(Len(hp2))), hp2, out)
+             /\ LET hp2 == Append(heap, Obj("record", 0, Cur.id)) IN
+                GoKD(AdvK(Kont), SetVar(envs, Act.ser, Cur.target, VRef(Len(hp2))), hp2, out, Def(Cur.id, Cur.target, VRef(Len(hp2)), hp2))
 
 SetElem(es, i, v) == IF i = Len(es) THEN Append(es, v) ELSE [es EXCEPT ![i + 1] = v]
 ArrayWrite ==
@@ -393,9 +444,9 @@ ArrayWrite ==
   /\ LET a == Val(Cur.array_tok)  ix == Val(Cur.index_tok)  v == Val(Cur.source_tok) IN
      IF a.t # "ref" \/ v.t = "undef" THEN Fail("array_write_" \o ToString(Cur.id))
      ELSE IF heap[a.i].kind = "record"
-     THEN GoK(AdvK(Kont), envs, [heap EXCEPT ![a.i].fields = (KeyOf(ix) :> v) @@ @], out)
+     THEN LET hp2 == [heap EXCEPT ![a.i].fields = (KeyOf(ix) :> v) @@ @] IN GoKD(AdvK(Kont), envs, hp2, out, Def(Cur.id, Cur.array, a, hp2))
      ELSE IF IsNum(ix) /\ AsInt(ix) >= 0 /\ AsInt(ix) <= Len(heap[a.i].elems)
-     THEN GoK(AdvK(Kont), envs, [heap EXCEPT ![a.i].elems = SetElem(@, AsInt(ix), v)], out)
+     THEN LET hp2 == [heap EXCEPT ![a.i].elems = SetElem(@, AsInt(ix), v)] IN GoKD(AdvK(Kont), envs, hp2, out, Def(Cur.id, Cur.array, a, hp2))
      ELSE IF IsNum(ix) /\ AsInt(ix) < 0 /\ 0 - AsInt(ix) <= Len(heap[a.i].elems)
      THEN GoK(AdvK(Kont), envs, [heap EXCEPT ![a.i].elems = SetElem(@, Len(heap[a.i].elems) + AsInt(ix), v)], out)
      ELSE Fail("index_" \o ToString(Cur.id))
@@ -405,11 +456,11 @@ ArrayRead ==
   /\ LET a == Val(Cur.array_tok)  ix == Val(Cur.index_tok) IN
      IF a.t = "ref" /\ heap[a.i].kind = "record"
      THEN (IF KeyOf(ix) \in DOMAIN heap[a.i].fields
-           THEN Next1(SetVar(envs, Act.ser, Cur.target, heap[a.i].fields[KeyOf(ix)])) ELSE Fail("key_" \o ToString(Cur.id)))
+           THEN Define(Cur.target, heap[a.i].fields[KeyOf(ix)]) ELSE Fail("key_" \o ToString(Cur.id)))
      ELSE IF a.t = "ref" /\ IsNum(ix)
      THEN LET n == Len(heap[a.i].elems)
               i == IF AsInt(ix) < 0 THEN n + AsInt(ix) ELSE AsInt(ix)
-          IN IF i >= 0 /\ i < n THEN Next1(SetVar(envs, Act.ser, Cur.target, heap[a.i].elems[i + 1])) ELSE Fail("index_" \o ToString(Cur.id))
+          IN IF i >= 0 /\ i < n THEN Define(Cur.target, heap[a.i].elems[i + 1]) ELSE Fail("index_" \o ToString(Cur.id))
      ELSE Fail("array_read_" \o ToString(Cur.id))
 
 RecordWrite ==
@@ -425,13 +476,14 @@ FieldWrite ==
      \* a numeric field of an array addresses an element (array literals of the JavaScript and PHP frontends)
      ELSE IF heap[r.i].kind \in {"array", "tuple"} /\ Cur.field_tok.k = "int" /\ Cur.field_tok.i >= 0 /\ Cur.field_tok.i <= Len(heap[r.i].elems)
      THEN GoK(AdvK(Kont), envs, [heap EXCEPT ![r.i].elems = SetElem(@, Cur.field_tok.i, v)], out)
-     ELSE GoK(AdvK(Kont), envs, [heap EXCEPT ![r.i].fields = (Cur.field :> v) @@ @], out)
+     ELSE LET hp2 == [heap EXCEPT ![r.i].fields = (Cur.field :> v) @@ @] IN
+          GoKD(AdvK(Kont), envs, hp2, out, IF Cur.receiver_object_tok.k = "var" THEN Def(Cur.id, Cur.receiver_object, r, hp2) ELSE {})
 FieldRead ==
   /\ Cur.op = "field_read"
   /\ LET r == Receiver(Cur.receiver_object_tok) IN
      IF r.t # "ref" THEN Fail("field_read_" \o ToString(Cur.id))
      ELSE LET v == FieldOf(r, Cur.field) IN
-          IF v.t = "undef" THEN Fail("no_such_field_" \o Cur.field) ELSE Next1(SetVar(envs, Act.ser, Cur.target, v))
+          IF v.t = "undef" THEN Fail("no_such_field_" \o Cur.field) ELSE Define(Cur.target, v)
 
 Known == {"assign_stmt", "variable_decl", "global_stmt", "nonlocal_stmt", "pass_stmt", "parameter_decl", "import_stmt", "from_import_stmt",
           "method_decl", "class_decl", "if_stmt", "while_stmt", "for_stmt", "forin_stmt", "for_value_stmt", "break_stmt", "continue_stmt", "return_stmt",
@@ -454,7 +506,14 @@ Plain(v) == CASE v.t = "int" -> [t |-> "int", i |-> v.i]
               [] OTHER -> [t |-> v.t]
 OutPlain == [j \in 1..Len(out) |-> [k \in 1..Len(out[j]) |-> Plain(out[j][k])]]
 Missed == sinks \ {<<Case(c).flows[j][1], Case(c).flows[j][2]>> : j \in 1..Len(Case(c).flows)}
+(* C07: every call that happened is a call edge of the analysis, and the callee was analysed under that call site *)
+TripleSet(xs) == {<<xs[j][1], xs[j][2], xs[j][3]>> : j \in 1..Len(xs)}
+MissedEdges == IF Case(c).check = "calls" THEN calls \ TripleSet(Case(c).edges) ELSE {}
+NotAnalysed == IF Case(c).check = "calls" THEN calls \ TripleSet(Case(c).analysed) ELSE {}
 Verdict == IF status = "done" /\ Case(c).check = "taint" THEN (IF Missed = {} THEN "" ELSE "flow_missed")
+           ELSE IF status = "done" /\ Case(c).check = "calls" THEN
+                  (IF MissedEdges # {} THEN "call_edge_missing" ELSE IF NotAnalysed # {} THEN "callee_not_analysed_under_call_site" ELSE "")
+           ELSE IF status = "done" /\ Case(c).check = "values" THEN ""
            ELSE IF status = "done" THEN (IF OutPlain = Case(c).expected THEN "" ELSE "output_differs")
            ELSE IF status = "run" /\ steps >= MaxSteps THEN "diverges"
            ELSE IF status = "skip:overflow" THEN "skipped_overflow"
@@ -462,6 +521,9 @@ Verdict == IF status = "done" /\ Case(c).check = "taint" THEN (IF Missed = {} TH
 Finished == status # "run" \/ steps >= MaxSteps
 Report == Finished =>
             PrintT("@@" \o ToJson([case |-> Case(c).name, clause |-> Verdict, got |-> IF Verdict = "" THEN << >> ELSE OutPlain, steps |-> steps,
-                                   observed |-> sinks, missed |-> IF Case(c).check = "taint" /\ status = "done" THEN Missed ELSE {}]))
+                                   observed |-> sinks, missed |-> IF Case(c).check = "taint" /\ status = "done" THEN Missed ELSE {},
+                                   calls |-> IF Case(c).check \in {"calls", "values"} THEN calls ELSE {},
+                                   missed_edges |-> MissedEdges, not_analysed |-> NotAnalysed,
+                                   defs |-> IF Case(c).check = "values" THEN defs ELSE {}]))
 ReportConstraint == Report
 =============================================================================
